@@ -3,6 +3,7 @@ mod atoms;
 mod panicx;
 mod props;
 mod report;
+mod ricebf;
 mod strictflac;
 mod subject;
 mod universe;
